@@ -104,6 +104,16 @@ fn from_jax(f: &Facts, o: &JaxOpts, transitive: bool) -> Result<Ontology, String
 }
 
 pub fn run(ctx: &mut Ctx) {
+    run_spaces(ctx);
+    // refusals forgiven by c10::decode_tolerant (a file with non-ascending ids inside a record refused, the same facts
+    // with ascending lists accepted)
+    let n = super::c10::take_ascending_retries();
+    if n > 0 {
+        ctx.bump("refused: ids inside a record not ascending, the same facts with ascending lists accepted", n);
+    }
+}
+
+fn run_spaces(ctx: &mut Ctx) {
     ctx.rule = "case = one fact set (labelled DAG + annotated subset S with records of all three kinds) with every listed linearisation; the set of distinct observations over the linearisations must be a singleton equal to the model; distinct by construction; non-trivial = fact set with more than one linearisation and at least one is_a link".into();
     ctx.assumptions = vec!["one name per id, one replacement per term".into(), "only the iteration order of terms/genes/diseases may differ: observations are sorted before comparison".into(),
         "binary files: the statement is about the order of the records of a section; a decoder that refuses descending ids INSIDE a record is given the same records with ascending ids".into(),
